@@ -739,17 +739,20 @@ impl Stringify for Value {
                             right,
                             location,
                         } => {
-                            let split = if let Expression::ToStringWithoutUndefined { .. }
-                            | Expression::LitStr { .. } = &**left
-                            {
-                                true
-                            } else if let Expression::ToStringWithoutUndefined { .. }
-                            | Expression::LitStr { .. } = &**right
-                            {
-                                true
-                            } else {
-                                false
-                            };
+                            // only a concatenation whose pieces are all static text or `{{ ... }}`
+                            // segments (what the parser builds for mixed text) can be printed as
+                            // mixed text again; a user-written `'a' + b` must stay an expression
+                            fn is_mixed_text(expr: &Expression) -> bool {
+                                match expr {
+                                    Expression::ToStringWithoutUndefined { .. }
+                                    | Expression::LitStr { .. } => true,
+                                    Expression::Plus { left, right, .. } => {
+                                        is_mixed_text(left) && is_mixed_text(right)
+                                    }
+                                    _ => false,
+                                }
+                            }
+                            let split = is_mixed_text(left) && is_mixed_text(right);
                             if split {
                                 split_expression(&left, stringifier, start_location, location)?;
                                 split_expression(&right, stringifier, location, end_location)?;
